@@ -764,6 +764,47 @@ class C04:
                 return True  # the pattern parameter itself (a module constant at every call site)
         return False
 
+    # ---- T11 document text handed to a parser of another library ------------------------------
+    PARSERS = {
+        # callee (import-resolved) -> exception names that together cover what it raises on arbitrary str input
+        "lxml.etree.fromstring": ({"XMLSyntaxError", "LxmlError", "Exception"}, "lxml reports every malformed / non-XML-compatible string (controls, surrogates) as XMLSyntaxError"),
+        "lxml.html.fromstring": ({"ParserError", "LxmlError", "Exception"}, "lxml.html raises ParserError on an empty document"),
+    }
+    PARSER_NAMES = ("fromstring", "XML", "HTML", "parse", "loads", "literal_eval", "fromstringlist", "document_fromstring", "fragment_fromstring")
+
+    def t11_foreign_parsers(self):
+        ctx = self.ctx
+        n = 0
+        for q, mod, fn in self.funcs():
+            if mod.name == "clean":
+                continue  # cleaning steps are outside this property's entry points (C20)
+            for c in [x for x in walk_local(fn) if isinstance(x, ast.Call) and isinstance(x.func, ast.Attribute) and x.func.attr in self.PARSER_NAMES]:
+                d = dotted(c.func)
+                if d is None or not c.args:
+                    continue
+                head = d.split(".")[0]
+                origin = mod.imports.get(head)
+                if origin is None or origin.split(".")[0] in ("eyecite", "re", "regex", "json"):
+                    continue
+                full = ".".join([origin] + d.split(".")[1:])
+                n += 1
+                known = self.PARSERS.get(full)
+                caught = set()
+                cur = c
+                while cur is not fn:
+                    par = cur.parent
+                    if isinstance(par, ast.Try) and cur in par.body:
+                        for h in par.handlers:
+                            caught |= {"Exception"} if h.type is None else {x.split(".")[-1] for x in (
+                                [norm(e) for e in h.type.elts] if isinstance(h.type, ast.Tuple) else [norm(h.type)])}
+                    cur = par
+                ok = known is not None and bool(caught & known[0])
+                ctx.ob("T11", f"{q}/{full}", ok,
+                       (f"`{norm(c)[:50]}` parses document text with {full}: " + (known[1] + f"; handlers catch {sorted(caught)}" if known else
+                        "a parser whose failure modes on arbitrary strings (lone surrogates, control characters, NUL) are not in the table of checked "
+                        f"library facts; handlers catch {sorted(caught)}")), node=c, mod=mod)
+        ctx.extra["T11_foreign_parser_calls"] = n
+
     # ---- T10 encoding input text -----------------------------------------------------------
     def t10_encoding(self):
         ctx = self.ctx
@@ -928,6 +969,7 @@ def run(ctx: Ctx):
     ctx.guard(C.t8_escaping)
     ctx.guard(C.t9_metadata_keys)
     ctx.guard(C.t10_encoding)
+    ctx.guard(C.t11_foreign_parsers)
     ctx.floor("T10", 3)
     ctx.floor("T1", 4)
     ctx.floor("T2", 8)
